@@ -666,5 +666,14 @@ M("x-relay-height-link-after-apply", "C20", ["R20.14", "R09.3", "R09.4", "R09.7"
   "            coinstate_changed = coinstate_prior.add_block_no_validation(block)\n            self.local_peer.disk_interface.save_block(block)\n"
   "            if block.height != previous_block.height + 1:\n                return\n",
   RP, "            if block.height != previous_block.height + 1:\n                # Checked here", "            if False:\n                # Checked here")
+# the managers' own steps run outside every per-connection handler (R20.15)
+M("x-step-picks-from-empty-candidates", "C20", "R20.15", MGR,
+  "        if len(ibd_candidates) == 0:\n            return\n", "")
+M("x-step-looks-up-peer-of-inventory", "C20", "R20.15", MGR,
+  "        remote_peer = random.choice(ibd_candidates)\n",
+  "        remote_peer = random.choice(ibd_candidates)\n        self.local_peer.logger.info(\"asking %s, previously %s\" % (remote_peer.host, self.actively_fetching_blocks_from_peers[-1][1].host))\n")
+M("x-locator-hashes-by-index-of-heads", "C20", ["R20.15", "R10.5"], MGR,
+  "        heights = get_recent_block_heights(self.coinstate.head().height)\n",
+  "        heights = get_recent_block_heights(self.coinstate.head().height)\n        tip = list(self.coinstate.heads.values())[len(heights)]\n        assert tip\n")
 M("x-set-coinstate-default-flipped", "C01", "R13.6", MGR,
   "    def set_coinstate(self, coinstate: CoinState, validated: bool = True) -> None:", "    def set_coinstate(self, coinstate: CoinState, validated: bool = False) -> None:")
